@@ -189,6 +189,7 @@ class Engine:
         self.genexit_hook = None     # (engine, final_blocks, frame): a generator abandoned at a yield inside try/finally
         self.handling = []           # exceptions being handled (for a bare `raise`)
         self.in_memo = None          # qualname of the memoised function whose body is being interpreted
+        self._frame_checked = set()
         self.on_obligation = None
         self.assume_proved = True
         self.path_tag = ""
@@ -406,12 +407,98 @@ class Engine:
         """Interpret the body of fi with the given actual arguments."""
         self.check_decorators(fi)
         self.interpreted.add(fi.qualname)
+        self.frame_static_checks(fi)
         kwargs = dict(kwargs or {})
         env = self.bind_args(fi.node.args, args, kwargs, self_val, fi)
         if extra_env:
             env.update(extra_env)
         frame = Frame(fi, env)
         return self.exec_body(fi.node.body, frame)
+
+    _MUTATORS = {"append", "add", "update", "setdefault", "pop", "clear", "extend", "insert", "popitem", "remove",
+                 "appendleft", "move_to_end", "discard", "sort", "reverse"}
+
+    @staticmethod
+    def _is_container_display(e):
+        if isinstance(e, (ast.List, ast.Dict, ast.Set, ast.ListComp, ast.DictComp, ast.SetComp)):
+            return True
+        if isinstance(e, ast.Call):
+            f = ast.unparse(e.func).split(".")[-1]
+            return f in ("list", "dict", "set", "OrderedDict", "defaultdict", "deque", "bytearray", "WeakValueDictionary", "Counter")
+        return False
+
+    def frame_static_checks(self, fi):
+        """Frame conditions that hold of every function of the repository on the pinned tree and on which every
+        'for all histories' argument rests (a function's result is a function of its arguments and of the objects it is
+        given): it does not keep state in a MODULE-LEVEL container, and it does not mutate in place a CLASS-LEVEL container
+        through `self` that no constructor rebinds (one object shared by all instances)."""
+        if fi.qualname in self._frame_checked:
+            return
+        self._frame_checked.add(fi.qualname)
+        mod = fi.module
+        params = {a.arg for a in fi.node.args.posonlyargs + fi.node.args.args + fi.node.args.kwonlyargs}
+        local = set(params)
+        for n in ast.walk(fi.node):
+            if isinstance(n, ast.Name) and isinstance(n.ctx, ast.Store):
+                local.add(n.id)
+        globs = set()
+        for n in ast.walk(fi.node):
+            if isinstance(n, ast.Global):
+                globs.update(n.names)
+        mod_cont = {k for k, v in getattr(mod, "consts", {}).items() if self._is_container_display(v)}
+        cls_cont = {}
+        cinfo = getattr(fi, "cls", None)
+        if cinfo is not None and not hasattr(cinfo, "consts"):
+            cinfo = self.prog.classes.get(cinfo)
+        if cinfo is not None:
+            for cn in self.prog.mro(cinfo.name):
+                c = self.prog.classes.get(cn)
+                if c is None:
+                    continue
+                for k, v in list(c.consts.items()) + [(k_, v_) for k_, v_ in c.fields if v_ is not None]:
+                    if self._is_container_display(v):
+                        cls_cont.setdefault(k, cn)
+            # a constructor that gives every instance its own container makes the class-level one a mere default
+            for cn in self.prog.mro(cinfo.name):
+                c = self.prog.classes.get(cn)
+                init = c.methods.get("__init__") if c is not None else None
+                if init is None:
+                    continue
+                for n in ast.walk(init.node):
+                    if isinstance(n, ast.Attribute) and isinstance(n.ctx, ast.Store) and isinstance(n.value, ast.Name) and n.value.id == "self":
+                        cls_cont.pop(n.attr, None)
+        hits = []
+
+        def base_of(e):
+            # X, X[...] , self.X, self.X[...]
+            while isinstance(e, ast.Subscript):
+                e = e.value
+            if isinstance(e, ast.Name):
+                if (e.id in mod_cont and e.id not in local) or e.id in globs:
+                    return "module-level " + e.id
+            if isinstance(e, ast.Attribute) and isinstance(e.value, ast.Name) and e.value.id == "self" and e.attr in cls_cont:
+                return "class-level %s.%s" % (cls_cont[e.attr], e.attr)
+            return None
+        for n in ast.walk(fi.node):
+            if isinstance(n, ast.Subscript) and isinstance(n.ctx, (ast.Store, ast.Del)):
+                b = base_of(n.value)
+                if b:
+                    hits.append(b)
+            elif isinstance(n, ast.AugAssign):
+                b = base_of(n.target)
+                if b and not (isinstance(n.target, ast.Attribute)):      # self.X += ... rebinds on the instance for lists? no: in place
+                    hits.append(b)
+                elif b:
+                    hits.append(b)
+            elif isinstance(n, ast.Call) and isinstance(n.func, ast.Attribute) and n.func.attr in self._MUTATORS:
+                b = base_of(n.func.value)
+                if b:
+                    hits.append(b)
+            elif isinstance(n, ast.Name) and isinstance(n.ctx, ast.Store) and n.id in globs:
+                hits.append("module-level " + n.id)
+        for b in sorted(set(hits)):
+            self.prove("frame:%s-keeps-no-state-outside-its-objects(it-writes-the-%s,-shared-by-every-call-and-instance)" % (
+                fi.qualname.split(".", 1)[-1], b.replace(" ", "-")), False, props=("*",))
 
     def bind_args(self, a, args, kwargs, self_val, fi=None, closure_env=None):
         named = {p.arg for p in a.posonlyargs + a.args + a.kwonlyargs}
@@ -624,6 +711,8 @@ class Engine:
                         return
                 raise Unsupported("concrete loop did not terminate")
             raise Unsupported("loop without invariant at %s:%d" % (fr.file, s.lineno))
+        if not hasattr(spec, "run_while"):
+            raise Unsupported("contract drift: the loop contract at this position is for a `for` loop, the code has a `while` (%s:%d)" % (fr.file, s.lineno))
         spec.run_while(self, s, fr)
 
     def s_For(self, s, fr):
@@ -666,6 +755,8 @@ class Engine:
         spec = self.loop_spec(fr, s)
         if spec is None:
             raise Unsupported("for-loop without invariant at %s:%d" % (fr.file, s.lineno))
+        if not hasattr(spec, "run_for"):
+            raise Unsupported("contract drift: the loop contract at this position is for a `while` loop, the code has a `for` (%s:%d)" % (fr.file, s.lineno))
         spec.run_for(self, s, fr, it)
 
     def loop_spec(self, fr, s):
@@ -1153,9 +1244,12 @@ class Engine:
                 if self.decide(self.num_eq0(b)):
                     raise PyRaise("ZeroDivisionError", (), node)
                 return py_mod(a, b)
-            if isinstance(op, (ast.BitOr, ast.BitAnd)) and not fl:
+            if isinstance(op, (ast.BitOr, ast.BitAnd, ast.BitXor)) and not fl:
                 if isinstance(a, int) and isinstance(b, int):
-                    return (a | b) if isinstance(op, ast.BitOr) else (a & b)
+                    return (a | b) if isinstance(op, ast.BitOr) else (a & b) if isinstance(op, ast.BitAnd) else (a ^ b)
+                if isinstance(op, ast.BitXor):
+                    # x ^ m == (x | m) - (x & m)   (exact for all Python ints)
+                    return self.bitop(ast.BitOr(), a, b) - self.bitop(ast.BitAnd(), a, b)
                 return self.bitop(op, a, b)
             if isinstance(op, ast.Pow) and isinstance(b, int) and b >= 0 and not fl:
                 r = 1
@@ -2135,6 +2229,35 @@ class Engine:
             m = self.prog.find_method(v.cls, "__bytes__")
             if m is not None:
                 return self.call_value(BoundMethod(v, m[1]), [], {})
+        if isinstance(v, GenVal) and v.kind == "map":
+            src = self.force(v.src)
+            if isinstance(src, (bytes, range, list, tuple)):
+                # concrete source: the element expression is evaluated item by item
+                out = []
+                for x in src:
+                    self.assign(v.target, x, v.frame)
+                    y = self.eval(v.elt, v.frame)
+                    if not (isinstance(y, int) and not isinstance(y, bool)):
+                        raise Unsupported("bytes(generator) with a symbolic element over a concrete source")
+                    if not 0 <= y < 256:
+                        raise PyRaise("ValueError", ("bytes must be in range(0, 256)",), node)
+                    out.append(y)
+                return bytes(out)
+            if isinstance(src, Seq) and src.kind == "bytes" and isinstance(v.target, ast.Name):
+                # bytes(f(b) for b in data): same length, element i is f(data[i]); each element must be a byte
+                eng, frame, elt, tname = self, v.frame, v.elt, v.target.id
+                j = z3.Int(fresh_name("bytes.gen.idx"))
+                frame.env[tname] = src.at(j)
+                yj = self.eval(elt, frame)
+                if not is_int(yj):
+                    raise Unsupported("bytes(generator): element is not an int")
+                self.prove("bytes(generator):every-element-is-a-byte", z3.Implies(z3.And(j >= 0, j < I(src.n), src.at(j) >= 0, src.at(j) < 256),
+                                                                             z3.And(I(yj) >= 0, I(yj) < 256)), props=("*",))
+
+                def at(i, _src=src):
+                    frame.env[tname] = _src.at(I(i))
+                    return I(eng.eval(elt, frame))
+                return Seq("bytes", src.n, at)
         raise Unsupported("bytes() of %r" % (v,))
 
     def b_str(self, args, kwargs, node, fr):
@@ -2240,6 +2363,19 @@ class Engine:
                 raise Unsupported("list.append must be applied through a location (handled in e_Call)")
         if isinstance(obj, (Seq, bytes)) and as_seq(obj).kind == "bytes" and name == "join":
             return self.bytes_join(obj, args[0])
+        if isinstance(obj, (Seq, bytes)) and as_seq(obj).kind == "bytes" and name == "translate" and len(args) == 1 and not kwargs:
+            table = self.force(args[0])
+            if table is None:
+                return obj
+            if not (isinstance(table, bytes) and len(table) == 256):
+                raise Unsupported("bytes.translate with a symbolic table")
+            if isinstance(obj, bytes):
+                return obj.translate(table)
+            arr = z3.K(z3.IntSort(), z3.IntVal(0))
+            for k_, v_ in enumerate(table):
+                arr = z3.Store(arr, k_, v_)
+            src = obj
+            return Seq("bytes", src.n, lambda i, _s=src, _a=arr: z3.Select(_a, _s.at(I(i))))
         if isinstance(obj, str):
             if name == "format":
                 # a literal template: the fields it names must exist among the arguments (str.format raises IndexError /
